@@ -29,3 +29,41 @@ func VerifC02(n int) {
 	}
 	vrt.Reach("valid program")
 }
+
+var verifC02Seeds = []string{
+	"a > b", "a 2> &1", "c <> ^\n r", "e >> f", "a <b", "{|a|b}", "?(a)", "\"\\x41\"", "$'a'[0]", "[&k=v]",
+	"{a,b}", "a^\nb", "a|b;c", "f &o=1 a", "'a''b'", "\"\\^A\\101\"", "a[1][2..]", "x=1 e $x", "(a) # c",
+	"if a { } else { }", "a > &-", "a [b\nc]", "a {\nb }", "\"\\u0041\"", "a &", "a | b", "try { } catch e { }",
+}
+
+// VerifC02Window: a seed program with one byte replaced by a symbolic byte
+// (position at; at = -1 keeps the seed as is); if the result is a valid
+// program, every proper prefix is checked.
+func VerifC02Window(seed, at int) {
+	src := verifC02Seeds[seed]
+	if at >= len(src) {
+		vrt.Reach("window beyond seed")
+		return
+	}
+	if at >= 0 {
+		src = src[:at] + vrt.Str("win", 1) + src[at+1:]
+	}
+	n := len(src)
+	vrt.Assume(utf8.ValidString(src))
+	_, err := parse.Parse(parse.Source{Name: "[v]", Code: src}, parse.Config{})
+	vrt.Assume(err == nil)
+	for k := 0; k < n; k++ {
+		if !utf8.RuneStart(src[k]) {
+			continue
+		}
+		p := src[:k]
+		_, perr := parse.Parse(parse.Source{Name: "[v]", Code: p}, parse.Config{})
+		errs := parse.UnpackErrors(perr)
+		for _, e := range errs {
+			vrt.Assert(e.Partial, "errors in a prefix of a valid program are partial")
+			vrt.Assert(e.Context.From == len(p), "partial errors start at the very end of the input")
+		}
+		vrt.Assert(isSyntaxComplete(p) == (len(errs) == 0), "Enter keeps reading exactly when the prefix has parse errors")
+	}
+	vrt.Reach("valid program")
+}
